@@ -1282,6 +1282,8 @@ func (fr *Frame) step(st *State, in ssa.Instruction) bool {
 		base := fr.val(x.X)
 		pt := types.Unalias(x.X.Type()).Underlying().(*types.Pointer).Elem()
 		fr.safetyOb(st, in, "nil", f.Neq(base, f.Int(0)))
+		// execution continues past &p.f only when p != nil (nil panics here)
+		ex.assume(st, f.Neq(base, f.Int(0)))
 		if dt, s, ok := ex.tm.StructOf(pt); ok {
 			fr.env[x] = ex.faddr(base, dt, fieldName(s, x.Field))
 			// &p.f is never nil (p == nil panics before)
